@@ -11,6 +11,7 @@ type GenOpts struct {
 	Shared     bool // some receivers/exporters are cross-signal shared (sharedcomponent) types
 	Extensions bool // generate extensions with a dependency DAG, capabilities, repeated list entries
 	Profiles   bool // profiles pipelines and 4×4 connector support matrices
+	Routing    bool // routing-style connectors (need connector.XRouterAndConsumer, send to a subset)
 	// Invalid: probability (percent) per connector link of drawing an
 	// unconstrained link (backward, self, unsupported pair) or a half use.
 	Invalid int
@@ -117,6 +118,9 @@ func Gen(t *rapid.T, o GenOpts) Topology {
 			}
 		}
 		c.Forward = rapid.Bool().Draw(t, "forward")
+		if o.Routing {
+			c.Route = pick(t, "route", []string{"", "all", "one", "some", ""})
+		}
 		tp.Connectors = append(tp.Connectors, c)
 	}
 
